@@ -117,7 +117,7 @@ def run_project(case: dict) -> dict:
                    "# SPDX-FileCopyrightText: 2001 In File\n# SPDX-License-Identifier: ISC\n"][(i + case["seed"]) % 4]
             p.write_text(own + "content\n")
         (root / "LICENSES").mkdir()
-        for lic in ("MIT", "ISC", "0BSD", "Apache-2.0"):
+        for lic in ("MIT", "ISC", "0BSD", "Apache-2.0", "GPL-3.0-or-later", "GPL-2.0-with-classpath-exception"):
             (root / "LICENSES" / f"{lic}.txt").write_text("text\n")
         if case["has_dep5"]:
             (root / ".reuse").mkdir()
@@ -217,7 +217,7 @@ def run(ctx: core.Ctx) -> int:
             pool = PATTERN_POOL if j % 7 == 3 else CLEAN_POOL      # '?' and '*/' patterns (open findings) only in every 7th project
             pgs.append({"patterns": rnd.sample(pool, rnd.randint(1, 2)),
                         "cop": [f"20{10 + k} Holder {chr(65 + k)}"] + (["2019 Second Line <s@example.org>"] if rnd.random() < 0.3 else []),
-                        "lic": rnd.choice(["MIT", "0BSD", "Apache-2.0", "MIT OR 0BSD"]),
+                        "lic": rnd.choice(["MIT", "0BSD", "Apache-2.0", "MIT OR 0BSD", "GPL-3.0-or-later", "GPL-2.0-with-classpath-exception OR MIT"]),
                         "comment": "a comment" if rnd.random() < 0.3 else None, "layout": "nextline" if (j + k) % 5 == 2 else "inline"})
         if j % 10 == 7:      # a later paragraph repeats an earlier, non-adjacent one
             pgs = [pgs[0], {"patterns": ["src/*", "tools/gen*.py"], "cop": ["2015 Bob"], "lic": "0BSD"},
